@@ -1,1 +1,86 @@
-From GV Require Import ME.Model ME.Monitors.
+From GV Require Import ME.Model ME.Monitors ME.Lists ME.Inv ME.InvC13 ME.InvC14.
+
+(* C14: every trace of the model, for every history (legal or not), satisfies the monitor. *)
+Theorem C14_holds : forall ids r d s0 outs0 ops,
+  NewMultiEndpoint ids r d = Some (s0, outs0) ->
+  C14_ok r d (observe s0) (run s0 ops) = true.
+Proof. exact C14_holds_proof. Qed.
+Print Assumptions C14_holds.
+
+(* State-level: the full invariant holds in every reachable state. *)
+Theorem invariant : forall ids r d s0 outs0 ops,
+  NewMultiEndpoint ids r d = Some (s0, outs0) -> Inv (run_state s0 ops).
+Proof. exact invariant_proof. Qed.
+Print Assumptions invariant.
+
+(* State-level convergence: no pending or firing timer and somebody available
+   => current is the highest-priority available endpoint. *)
+Theorem convergence : forall ids r d s0 outs0 ops ta,
+  NewMultiEndpoint ids r d = Some (s0, outs0) ->
+  let s := run_state s0 ops in
+  (forall k t, nth_error (timers s) k = Some t -> t_st t <> Pending /\ t_st t <> Firing) ->
+  topAvail s = Some ta ->
+  cur s = e_id ta.
+Proof. exact convergence_proof. Qed.
+Print Assumptions convergence.
+
+(* Non-vacuity (a): the same concrete history as in Props_C13 (recovery timers
+   firing, a delayed switch completing, an endpoint dropped, a new recovery window). *)
+Example c14_history :
+  let ops := [OpAvail 2 true; OpAdvance 5; OpBegin 0; OpEnd 0; OpAvail 1 true; OpAdvance 3;
+              OpBegin 3; OpEnd 3; OpSet [3%N; 1%N]; OpAvail 1 false; OpBegin 7; OpSet [];
+              OpAdvance 5; OpBegin 4; OpEnd 4] in
+  match NewMultiEndpoint [1%N; 2%N; 3%N] 5 3 with
+  | Some (s0, outs0) =>
+      length (run s0 ops) = 15%nat /\
+      map (fun ev => o_cur (ev_obs ev)) (run s0 ops) =
+        [1; 1; 1; 2; 2; 2; 2; 1; 1; 1; 1; 1; 1; 1; 1]%N /\
+      map (fun ev => ev_out ev) (run s0 ops) =
+        [[OStop 1 true]; []; []; [OStop 0 false]; [OStop 0 false; ONewTimer 3]; []; []; []; [];
+         [OStop 0 false; ONewTimer 5]; []; [OErr]; []; []; [OStop 4 false]] /\
+      o_tmrs (observe (run_state s0 ops)) = [(5, 3); (5, 1); (5, 0); (8, 3); (13, 3)]%Z /\
+      C14_ok 5 3 (observe s0) (run s0 ops) = true
+  | None => False
+  end.
+Proof. vm_compute. repeat split; reflexivity. Qed.
+
+(* Non-vacuity (b): the monitor rejects hand-made bad traces.
+   Initial observation below: current = 1 (available), endpoint 2 unavailable. *)
+
+(* sanity: a correct reaction is accepted (r = 5: endpoint 1 enters a recovery window) *)
+Example c14_good_trace :
+  C14_ok 5 0 (mkObs 1 [mkOep 1 0 1 (-1); mkOep 2 1 0 (-1)] [] 0)
+    [mkEvent (OpAvail 1 false) [ONewTimer 5]
+       (mkObs 1 [mkOep 1 0 2 0; mkOep 2 1 0 (-1)] [(5, 0)] 0)] = true.
+Proof. vm_compute; reflexivity. Qed.
+
+(* the recovery window has the wrong length *)
+Example c14_bad_wrong_window :
+  C14_ok 5 0 (mkObs 1 [mkOep 1 0 1 (-1); mkOep 2 1 0 (-1)] [] 0)
+    [mkEvent (OpAvail 1 false) [ONewTimer 4]
+       (mkObs 1 [mkOep 1 0 2 0; mkOep 2 1 0 (-1)] [(4, 0)] 0)] = false.
+Proof. vm_compute; reflexivity. Qed.
+
+(* a clock tick takes an endpoint out of the available state *)
+Example c14_bad_timer_unavails :
+  C14_ok 5 0 (mkObs 1 [mkOep 1 0 1 (-1); mkOep 2 1 0 (-1)] [] 0)
+    [mkEvent (OpAdvance 1) [] (mkObs 1 [mkOep 1 0 0 (-1); mkOep 2 1 0 (-1)] [] 1)] = false.
+Proof. vm_compute; reflexivity. Qed.
+
+(* no timer is active, endpoint 1 (priority 0) is available, but current is 2 *)
+Example c14_bad_no_convergence :
+  C14_ok 0 3 (mkObs 2 [mkOep 1 0 0 (-1); mkOep 2 1 1 (-1)] [] 0)
+    [mkEvent (OpAvail 1 true) [] (mkObs 2 [mkOep 1 0 1 (-1); mkOep 2 1 1 (-1)] [] 0)] = false.
+Proof. vm_compute; reflexivity. Qed.
+
+(* with a switching delay, current moves inside the very call that made a better endpoint available *)
+Example c14_bad_immediate_switch :
+  C14_ok 0 3 (mkObs 2 [mkOep 1 0 0 (-1); mkOep 2 1 1 (-1)] [] 0)
+    [mkEvent (OpAvail 1 true) [] (mkObs 1 [mkOep 1 0 1 (-1); mkOep 2 1 1 (-1)] [] 0)] = false.
+Proof. vm_compute; reflexivity. Qed.
+
+(* current leaves a recovering endpoint although nothing better is available *)
+Example c14_bad_leaves_recovery_window :
+  C14_ok 5 0 (mkObs 1 [mkOep 1 0 2 0; mkOep 2 1 0 (-1)] [(5, 0)] 0)
+    [mkEvent (OpAdvance 1) [] (mkObs 2 [mkOep 1 0 2 0; mkOep 2 1 0 (-1)] [(5, 0)] 1)] = false.
+Proof. vm_compute; reflexivity. Qed.
